@@ -484,3 +484,45 @@ R.contract(
     replayable=False,
 )
 R.spec_funcs["same_ref"] = lambda it, a, b: a is b
+
+
+# ------------------------------------------------------------------------------------------------- change_properties: the mutated property becomes REQUIRED (otherwise leaving it out gives a valid object)
+_aus = R.contracts[MU + "apply_until_success"]
+_aus.returns = EnumOf(MU + "MutationResult")
+_aus.effects = {"prop_results": "ghost('prop_results') + [(schema, result.name)]"}
+_aus.call_ensures = {}
+_aus.requires_are_representation_invariant = True
+
+
+class _PropsSchema(D):
+    def make(self, it, name, idx=()):
+        props = {"a": {"type": "integer"}, "b": {"type": "string"}}
+        out = {"properties": props}
+        if it.path.choose([(False, True), (True, True)], "typed"):
+            out["type"] = "object"
+        req = it.path.choose([(None, True), ((), True), (("a",), True)], "required")
+        if req is not None:
+            out["required"] = list(req)
+        it.path.bounded_inputs.add("object schemas with 2 properties")
+        return out
+
+
+FIRST_OK = "[sc for sc, r in ghost('prop_results') if r == 'SUCCESS']"
+R.contract(
+    MU + "change_properties",
+    variant="mutation",
+    prop="C02",
+    setup=_decorated("change_properties"),
+    args={"context": _Ctx(), "draw": Callable_(contract="spec:draw_mutation", name="draw"), "schema": _PropsSchema()},
+    ghost={"prop_results": [], "tried": []},
+    raises=[],
+    ensures={
+        "success_iff_some_property_schema_was_mutated": "iff(" + SUCCESS_ + ", length(" + FIRST_OK + ") > 0)",
+        # a property whose schema now rejects valid values must be present, or the object without it would still be valid: it is added to `required`, and the value must stay an object
+        "the_mutated_property_is_required_afterwards": "implies(" + SUCCESS_ + ", any(same_ref(schema['properties'][n], " + FIRST_OK + "[0]) and n in schema['required'] for n in schema['properties']) and schema['type'] == 'object')",
+        "properties_are_tried_until_the_first_success_only": "length(" + FIRST_OK + ") <= 1 and implies(length(" + FIRST_OK + ") == 1, ghost('prop_results')[-1][1] == 'SUCCESS')",
+        "failure_adds_no_requirement": "implies(not " + SUCCESS_ + ", schema.get('required') == old(deep(schema)).get('required'))",
+    },
+    replayable=False,
+    max_paths=20000,
+)
